@@ -39,7 +39,9 @@ pub fn check_status(b: &Board, p: &RPos, src: &str, rep: &mut Report) {
     }
 }
 
-struct C04Mon {}
+struct C04Mon {
+    miri: bool,
+}
 impl NodeMon for C04Mon {
     fn through_rights_divergence(&self) -> bool {
         true
@@ -62,8 +64,8 @@ impl NodeMon for C04Mon {
         // sample of nodes every successor with at most three legal moves, is produced by the library
         // and its status judged.  Status is decided on such positions, and random play rarely picks
         // the one move (an en-passant capture, a castling, an under-promotion) that leads there.
-        let full = n.ply <= 2 || rng.chance(1, 6);
-        for m in n.legal.iter() {
+        let full = !self.miri && (n.ply <= 2 || rng.chance(1, 6));
+        for m in n.legal.iter().take(if self.miri { 4 } else { 1000 }) {
             let np = n.p.make(*m);
             let terminal = !np.has_legal_move();
             if !(terminal || (full && np.legal_moves().len() <= 3)) {
@@ -216,7 +218,7 @@ pub fn run_c04(ctx: &Ctx, rep: &mut Report) {
             _ => Start::plain(synth::synth(rng, Density::Medium), "synth_dense"),
         };
         let cfg = WalkCfg { max_plies: if miri { 6 } else { 80 }, null_per_mille: 0, stop_on_divergence: true, follow_library: false };
-        let mut mon = C04Mon {};
+        let mut mon = C04Mon { miri };
         playout(&start, &cfg, rng, &mut mon, rep);
     });
 }
